@@ -165,6 +165,7 @@ func checkC11(p *Program, r *Report) {
 			return "", false
 		})
 		r.Floor("C11.leaves", 3)
+		c11member(p, r)
 	}()
 	r.Explain = "C11.width: the three tree-width functions (two proof builders, one extractor) are the same canonical term in (numTx, height). C11.shape: the three " +
 		"traversals recurse on (height−1, 2·pos) and (height−1, 2·pos+1), guard the second child with 2·pos+1 < width(height−1), stop on height = 0 or a clear " +
@@ -1008,4 +1009,147 @@ func c11order(p *Program, r *Report) {
 		r.Unresolved("C11.order", "proof builders")
 	}
 	r.Floor("C11.order", 3)
+}
+
+// c11member (round 6, C11-agent6-m1): "the chosen subset given as a set of hashes" — a transaction is chosen iff its
+// hash EQUALS a hash of the set.  The set-driven builder decides that through a function that is handed the set; that
+// function must be an equality scan: a loop over the whole set that answers true where the two hashes compare equal
+// (array ==, IsEqual, bytes.Equal) and false only once the set is exhausted.  A lookup that sorts the set with one
+// order and binary-searches it with another misses most members of a large set; anything that is not a plain scan
+// (or a map lookup) is undecided.
+func c11member(p *Program, r *Report) {
+	isHashPtrSlice := func(t types.Type) bool {
+		sl, ok := t.Underlying().(*types.Slice)
+		if !ok {
+			return false
+		}
+		pt, ok := sl.Elem().Underlying().(*types.Pointer)
+		return ok && isNamed(pt.Elem(), "github.com/gcash/bchd/chaincfg/chainhash", "Hash")
+	}
+	pk := p.Pkg("merkleblock")
+	if pk == nil {
+		r.Unresolved("C11.member", "package merkleblock")
+		return
+	}
+	n := 0
+	for _, fn := range p.Funcs {
+		if fn.Pkg != pk || fn.Parent() != nil || fn.Object() == nil || !fn.Object().Exported() {
+			continue
+		}
+		var set *ssa.Parameter
+		for _, pa := range fn.Params {
+			if isHashPtrSlice(pa.Type()) {
+				set = pa
+			}
+		}
+		if set == nil || fn.Signature.Results().Len() == 0 {
+			continue
+		}
+		if _, isBool := fn.Signature.Results().At(0).Type().Underlying().(*types.Basic); isBool && fn.Signature.Results().Len() == 1 {
+			continue // the scan helper itself
+		}
+		// every use of the set in the builder
+		for _, ref := range *set.Referrers() {
+			if _, ok := ref.(*ssa.DebugRef); ok {
+				continue
+			}
+			n++
+			c, ok := ref.(*ssa.Call)
+			if !ok || c.Call.StaticCallee() == nil || !p.InRepo(c.Call.StaticCallee()) {
+				r.Undecided("C11.member", FnName(fn), "membership in the chosen set is decided by an equality scan of the set", ref.Pos(), "the set is used by "+ref.String()+", not handed to a scan function")
+				continue
+			}
+			cal := c.Call.StaticCallee()
+			k := -1
+			for i, a := range c.Call.Args {
+				if a == ssa.Value(set) {
+					k = i
+				}
+			}
+			ok2, why := equalityScan(cal, k)
+			r.Add("C11.member", FnName(fn), "membership in the chosen set is decided by an equality scan of the set ("+FnName(cal)+")", c.Pos(), ok2, why)
+		}
+	}
+	if n == 0 {
+		r.Unresolved("C11.member", "a builder of package merkleblock that takes the chosen set of hashes")
+	}
+	r.Floor("C11.member", 1)
+}
+
+// equalityScan: fn ranges over its k-th parameter (whole), returns true exactly on the edge of an equality test
+// between an element and another parameter, and false only after the loop.
+func equalityScan(fn *ssa.Function, k int) (bool, string) {
+	if k < 0 || k >= len(fn.Params) || len(fn.Blocks) == 0 {
+		return false, "not a function of the set"
+	}
+	set := ssa.Value(fn.Params[k])
+	var hdr *ssa.BasicBlock
+	for _, b := range fn.Blocks {
+		if !isLoopHeader(b) {
+			continue
+		}
+		if hdr != nil {
+			return false, "more than one loop"
+		}
+		hdr = b
+	}
+	if hdr == nil {
+		return false, "no loop over the set"
+	}
+	iff, ok := lastInstr(hdr).(*ssa.If)
+	if !ok {
+		return false, "loop header does not test the range"
+	}
+	c, ok := iff.Cond.(*ssa.BinOp)
+	if !ok || c.Op != token.LSS || !isLenOf(c.Y, func(v ssa.Value) bool { return v == set }) {
+		return false, "the loop does not range over the whole set"
+	}
+	if fullRangeInduction(c.X, func(v ssa.Value) bool { return v == set }) == nil {
+		return false, "the loop does not visit every element of the set"
+	}
+	for _, in := range fn.Blocks[0].Instrs {
+		if call, ok := in.(*ssa.Call); ok && !isBuiltin(&call.Call, "len") {
+			return false, "the set is processed before the scan (" + calleeName(&call.Call) + ")"
+		}
+	}
+	nTrue, nFalse := 0, 0
+	for _, ret := range returnsOf(fn) {
+		v, isK := constBool(ret.Results[0])
+		if !isK {
+			return false, "a return value that is not a constant verdict"
+		}
+		if v {
+			nTrue++
+			// reached only through an equality test of an element
+			okEq := false
+			for _, cd := range DomConds(ret.Block()) {
+				if !cd.Truth {
+					continue
+				}
+				switch x := cd.V.(type) {
+				case *ssa.BinOp:
+					if x.Op == token.EQL {
+						okEq = true
+					}
+				case *ssa.Call:
+					nm := calleeName(&x.Call)
+					if strings.HasSuffix(nm, ".IsEqual") || nm == "bytes.Equal" {
+						okEq = true
+					}
+				}
+			}
+			if !okEq {
+				return false, "'true' is returned without an equality test of an element"
+			}
+		} else {
+			nFalse++
+			if ret.Block() == hdr.Succs[0] || hdr.Succs[0].Dominates(ret.Block()) {
+				return false, "'false' is returned from inside the loop: the rest of the set is not looked at"
+			}
+		}
+	}
+	if nTrue == 0 || nFalse == 0 {
+		return false, "the scan does not return both verdicts"
+	}
+	return true, "loop over the whole set; true on an equal element; false after exhaustion"
 }
